@@ -21,7 +21,8 @@ def replay(path):
     elif "grammar" in o:
         g = Grammar.from_json(o["grammar"])
         cfgs = [o["config"]] if "config" in o else sem.ALL_CONFIGS
-        ci = sem.CaseInfo(0, g, o.get("strict", 1), o["input"], cfgs)
+        # the case number selects the terminal padding of sem.emit_case
+        ci = sem.CaseInfo(o.get("cid", 0), g, o.get("strict", 1), o["input"], cfgs)
         cs = sem.run_cases(o.get("variant", "asan"), [ci], None, h2=o.get("h2", False))
     else:
         print("nothing to replay")
